@@ -78,6 +78,12 @@ UNITS = {
         'complete': True, 'timeout': 600,
         'title': 'span production: apply_raw records exactly the given span on every value kind, value and decor as specified (every start <= end, every i64/f64/bool)',
     },
+    'K14s': {
+        'engine': 'kani', 'crate': 'toml_edit',
+        'harnesses': ['k14_on_keyval_span', 'k14_on_keyval_no_span', 'k14_std_header_span'],
+        'complete': False, 'bound': 'one table with one fixed key name; every span value', 'timeout': 900,
+        'title': 'ParseState span bookkeeping: a key/value extends the current table span to the value end and keeps its start; a [header] starts a table with exactly the header span (bounded: fixed key names, plain keys)',
+    },
     'K14r': {
         'engine': 'kani', 'crate': 'toml_edit', 'harnesses': ['k14_rawstring_despan'],
         'complete': False, 'bound': 'inputs of exactly 4 ASCII bytes, every span inside them',
@@ -193,7 +199,7 @@ PLAN = {
     'C02': {'quick': ['K2', 'K7s', 'K6t', 'K6d', 'V5', 'V7', 'V8', 'V9', 'V11', 'V12'], 'thorough': ['K2', 'K2y', 'K7s', 'K6t', 'K6d', 'V5', 'V7', 'V8', 'V9', 'V11', 'V12', 'K5']},
     'C05': {'quick': ['V3', 'K12'], 'thorough': ['V3', 'K12']},
     'C12': {'quick': ['V4', 'V5', 'V6', 'V7', 'V11', 'K2', 'K3q'], 'thorough': ['V4', 'V5', 'V6', 'V7', 'V11', 'K2', 'K2y', 'K3q', 'K3t', 'K3a']},
-    'C14': {'quick': ['K11', 'K14', 'K14r'], 'thorough': ['K11', 'K14', 'K14r']},
+    'C14': {'quick': ['K11', 'K14', 'K14r', 'K14s'], 'thorough': ['K11', 'K14', 'K14r', 'K14s']},
     'C15': {'quick': ['V10', 'V13', 'K8'], 'thorough': ['V10', 'V13', 'K8', 'K8t']},
 }
 
